@@ -158,6 +158,13 @@ let dispatch name =
   | "obj_make_identical" -> let tol = rq () in let o1 = robj () in let o2 = robj () in let dd = rint () in
     pres (fun (a, b) -> pobj a; pobj b) (Exec.q_obj_make_identical tol o1 o2 (if dd < 0 then None else Some (nat_of_int dd)))
   | "obj_compatible" -> let o1 = robj () in let o2 = robj () in let (a, b) = Exec.q_obj_compatible o1 o2 in pobj a; pobj b
+  | "cs_loop_tab" -> let r = rq () in let cdt = rq () in let tab = rlist (fun () -> let c = rq () in let s = rq () in (c, s)) in
+    plist pqlist (Exec.q_cs_loop_tab r cdt tab O)
+  | "revolve_cps" -> let prof = rlist rqlist in let seg = rlist rqlist in plist pqlist (Exec.q_revolve_cps prof seg)
+  | "extrude_cps" -> let dim = rnat () in let rat = rbool () in let am = rqlist () in let prof = rlist rqlist in
+    plist pqlist (Exec.q_extrude_cps dim rat am prof)
+  | "circle_net" -> let which = rint () in let s2 = rq () in
+    plist pqlist (if which = 2 then Exec.q_circle_net_p2C0 s2 else Exec.q_circle_net_p4C1 s2)
   | _ -> out ("UNKNOWN " ^ name)
 
 let () =
